@@ -192,3 +192,55 @@ def run_c(prog, res, root=None):
                                 "single instructions, may write it" % (rel, name, slot), unit=rel))
     stat.sample({"setters_checked": sorted(setters), "files": [os.path.relpath(p, root) for p in files if os.path.exists(p)]})
     return stat
+
+
+# ------------------------------------------------------------------ C11.d
+def run_d(prog, res, floor=4):
+    """wake-ups are matched on the paused thread's event field: every primitive that pauses the
+    current thread (queues ctx itself with sexp_insert_timed) stores that thread's event and its
+    waitp flag on every path before it queues it - a stale event makes a sleeper steal the next
+    signal / unlock meant for a real waiter"""
+    from cfg import dominators, elem_positions, enclosing_elem, reach_without
+    stat = res.stat("C11.d", "every primitive that queues the current thread as paused stores its event and waitp fields "
+                    "on every path first", floor=floor)
+    for fn in prog.all_funcs():
+        if fn.unit.name != "threads.c" or fn.name == "sexp_scheduler" or not fn.blocks:
+            continue
+        pos = None
+        for i, nd in enumerate(fn.nodes):
+            if nd["k"] != "call" or nd.get("o") != "sexp_insert_timed" or len(nd["c"]) < 3:
+                continue
+            a_ctx, a_thr = fn.strip(nd["c"][1]), fn.strip(nd["c"][2])
+            if fn.txt(a_ctx) != fn.txt(a_thr):
+                continue        # queues another thread
+            if pos is None:
+                pos = elem_positions(fn)
+            pc = enclosing_elem(fn, i, pos)
+            if pc is None:
+                continue
+            who = fn.txt(a_thr)
+            for field in ("event", "waitp"):
+                stat.sites += 1
+                stat.obligations += 1
+                stores = []
+                for j, n2 in enumerate(fn.nodes):
+                    if n2["k"] == "bin" and n2["o"] == "=":
+                        l = fn.strip(n2["c"][0])
+                        if fn.nodes[l]["k"] == "mem" and fn.nodes[l].get("o") == field:
+                            o2, path = fn.mempath(l)
+                            if path[:2] == ["value", "context"] and fn.txt(o2) == who:
+                                p = enclosing_elem(fn, j, pos)
+                                if p is not None:
+                                    stores.append(p)
+                entry = (fn.entry, -1)
+                # is the call reachable from the entry without passing any of the stores?
+                if stores and not reach_without(fn, entry, pc, set(stores)):
+                    stat.discharged += 1
+                    stat.sample({"function": fn.name, "field": field, "where": fn.where(i)})
+                else:
+                    res.add(Finding("C11", "C11.d.pause-without-" + field, fn.name, "%s of %s" % (field, who), fn.where(i),
+                                    "%s queues the current thread as paused, but a path reaches the sexp_insert_timed call "
+                                    "without storing %s->%s: signals and unlocks look for their waiter by that field, so a "
+                                    "value left over from an earlier wait makes this thread take a wake-up meant for another "
+                                    "(lost wake-up)" % (fn.name, who, field), unit=fn.unit.display))
+    return stat
